@@ -151,18 +151,25 @@ def uniform_dispatch(ctx, rule, fa, g, b, stop, f):
         if tg and "Future" in b.local_ty(t["d"][0]) + "".join(x.d.get("ret", "") for x in tg) and \
                 any(x.npath == EXEC for tb in tg for x, p_, j in g.closure([tb], stop=stop).values()):
             srcs[t["d"][0]] = b.loc(i)
+    # per source future (the same async block / the same callee): how is it consumed
     modes = {}
-    der = cfg.derived_locals(b, list(srcs), extra_through=("std::future::IntoFuture::into_future", "std::pin::Pin::new_unchecked",
-                                                           "<F as std::future::IntoFuture>::into_future"))
-    for i, t in cfg.calls(b):
-        used = [cfg.op_place(a)[0] for a in t["a"] if cfg.op_place(a) and cfg.op_place(a)[0] in der]
-        if not used:
-            continue
-        last = (cfg.callee_decl(t) or cfg.callee(t) or "").split("::")[-1]
-        if is_spawn(t):
-            modes.setdefault("spawned", []).append(b.loc(i))
-        elif last in ("poll", "block_on", "join", "join_all", "select"):
-            modes.setdefault("awaited in place", []).append(b.loc(i))
+    through = ("std::future::IntoFuture::into_future", "std::pin::Pin::new_unchecked", "<F as std::future::IntoFuture>::into_future")
+    for src in srcs:
+        der = cfg.derived_locals(b, [src], extra_through=through)
+        mine = {}
+        for i, t in cfg.calls(b):
+            used = [cfg.op_place(a)[0] for a in t["a"] if cfg.op_place(a) and cfg.op_place(a)[0] in der]
+            if not used:
+                continue
+            last = (cfg.callee_decl(t) or cfg.callee(t) or "").split("::")[-1]
+            if is_spawn(t):
+                mine.setdefault("spawned", []).append(b.loc(i))
+            elif last in ("poll", "block_on", "join", "join_all", "select"):
+                mine.setdefault("awaited in place", []).append(b.loc(i))
+        if len(mine) > 1 or not modes:
+            modes = mine if (len(mine) > 1 or not modes) else modes
+        if len(mine) > 1:
+            break
     ok = len(modes) <= 1
     ctx.ob(rule, "%s:uniform-dispatch" % f, ok,
            "%d future(s) containing ClusterAction::exec, all dispatched the same way (%s)" % (len(srcs), ", ".join(modes) or "-") if ok else
